@@ -782,12 +782,17 @@ class Engine:
         return None
 
     def call(self, callee, args):
+        if os.environ.get("MIRSYM_TRACE"):
+            print("CALL", callee, file=sys.stderr)
         if callee in self.fns:
             return self.call_fn(self.fns[callee], args)
         for pat, impl in self.externs:
             m = re.match(pat, callee)
             if m:
                 return impl(self, m, args)
+        if re.match(r"^<(?:usize|u64|i64|u32|i32|u8|f64|bool|str|char|std::|core::|alloc::|Vec<|Option<|Box<|Arc<|String|&|\[)", callee):
+            # a trait method of a std type is never a crate-local function
+            raise Unsupported("call to " + callee)
         # crate-local functions may be printed with their module path
         for name, f in self.fns.items():
             if name.endswith("::" + callee) or callee.endswith("::" + name):
@@ -890,6 +895,27 @@ def ext_checked_neg(e, m, args):
     if e.decide(v == -2 ** 63):
         return ("None",)
     return ("Some", -v)
+
+
+def ext_usize_try_from_i64(e, m, args):
+    v = args[0]
+    if e.decide(v >= 0):
+        return ("enum", "Result::Ok", [v])
+    return ("enum", "Result::Err", [("unit",)])
+
+
+def ext_usize_checked_add(e, m, args):
+    v = args[0] + args[1]
+    if e.decide(v <= 2 ** 64 - 1):
+        return ("Some", v)
+    return ("None",)
+
+
+def ext_option_try_branch(e, m, args):
+    o = args[0]
+    if o[0] == "Some":
+        return ("enum", "ControlFlow::Continue", [o[1]])
+    return ("enum", "ControlFlow::Break", [("None",)])
 
 
 def ext_wrapping_neg(e, m, args):
@@ -1032,6 +1058,10 @@ STD_MODELS = [
     (r"^(?:std|core)::cmp::(min|max)::<(?:usize|u64|i64|u32|i32)>$", ext_int_minmax),
     (r"^<(?:usize|u64|i64|u32|i32) as Ord>::cmp$", ext_int_cmp),
     (r"^core::num::<impl i64>::checked_neg$", ext_checked_neg),
+    (r"^<usize as TryFrom<i64>>::try_from$", ext_usize_try_from_i64),
+    (r"^core::num::<impl usize>::checked_add$", ext_usize_checked_add),
+    (r"^<std::option::Option<.*> as Try>::branch$", ext_option_try_branch),
+    (r"^<std::option::Option<.*> as FromResidual<std::option::Option<Infallible>>>::from_residual$", lambda e, m, a: ("None",)),
     (r"^core::num::<impl i64>::wrapping_neg$", ext_wrapping_neg),
     (r"^std::option::Option::<.*>::ok_or::<.*>$", ext_option_ok_or),
     (r"^std::result::Result::<.*>::map::<Value, fn\(\w+\) -> Value \{\w+::\w+\}>$", ext_result_map_ctor),
